@@ -86,6 +86,7 @@ def call(f, *a, **k):
         except Exception:
             key = getattr(f, '__name__', '')
         decimal.setcontext(_ambient_context(key).copy())
+        err, sys.stderr = sys.stderr, None          # a process without a usable stderr (services, embedded interpreters)
         try:
             with warnings.catch_warnings():
                 warnings.simplefilter('error')
@@ -94,6 +95,7 @@ def call(f, *a, **k):
                 except Exception as e:
                     return ('exc', type(e).__name__, str(e)[:200], innermost_athlib_frame(e.__traceback__))
         finally:
+            sys.stderr = err
             decimal.setcontext(old)
     try:
         return ('ret', f(*a, **k))
